@@ -94,6 +94,13 @@ theorem binom_val_iff_fits (n k : Nat) (hk : k ≤ n) :
     (∃ c, binomCoeff n k = .val c) ↔ n.choose k < 2 ^ 64 :=
   ⟨fun ⟨c, h⟩ => (binom_val_imp_exact n k c hk h).2, fun h => ⟨_, binom_exact n k hk h⟩⟩
 
+example : binomCoeff 5 7 = .underflow := binom_underflow 5 7 (by norm_num)
+/-- non-vacuity of `binom_val_imp_exact` / `binom_val_iff_fits`: a value is returned at (67,33), none at (68,34) -/
+example : (67 : Nat).choose 33 < 2 ^ 64 :=
+  (binom_val_imp_exact 67 33 14226520737620288370 (by norm_num) (by decide +kernel)).2
+example : ¬ ∃ c, binomCoeff 68 34 = .val c := by
+  rw [binom_val_iff_fits 68 34 (by norm_num)]; decide +kernel
+
 /-- Symmetry. -/
 theorem binom_symm (n k : Nat) (hk : k ≤ n) (hfit : n.choose k < 2 ^ 64) :
     binomCoeff n (n - k) = binomCoeff n k := by
@@ -184,6 +191,8 @@ totalised real functions, whereas the code returns `ln(0/1) = -inf` and `ln(1/0)
 limits, `logit_tendsto_zero` / `logit_tendsto_one`, and the oracle checks them exactly.) -/
 theorem logit_real (p : ℝ) (h0 : 0 < p) (h1 : p < 1) : logit p = some (Real.log (p / (1 - p))) := by
   unfold logit; rw [if_pos ⟨h0.le, h1.le⟩]; rfl
+
+example : logit (1 / 4 : ℝ) = some (Real.log ((1 / 4) / (1 - 1 / 4))) := logit_real _ (by norm_num) (by norm_num)
 
 /-- At the end points the model returns a value (no panic), like the code. -/
 theorem logit_endpoints_defined : (logit (0 : ℝ)).isSome ∧ (logit (1 : ℝ)).isSome := by
